@@ -11,11 +11,11 @@ RULE = ("fixed-buffer writer between two 16-byte guard zones: all histories of l
         "rendering of the N-arithmetic specification; growing writer likewise (content read back through GetReader after every "
         "step); stream copies for every (source length 0..10, chunk in {1,2,3,7,16}, start 0..len) x backend plus the real chunk "
         "size around 128 KiB boundaries; size prefixes of 1/2 bytes at 255/256 and 65535/65536; the full 16 x {exists, absent} "
-        "open-flag matrix on a real scratch directory")
+        "open-flag matrix on a real scratch directory; file-writer histories of writes and seeks (fixed + random) for every flag value x {absent, empty, 10-byte file}: position after every step and bytes on disk after close")
 PROVED = ("fixed writer model (u64 guards) = N specification on every op/argument/history; a refused op changes nothing and the "
           "buffer never changes size; a write touches exactly [pos, pos+n); growing writer = history fold (append, zero fill, "
           "truncate); prefix refusal and acceptance; u16/u32 codecs invert; copy loop transfers exactly the remaining bytes for "
-          "EVERY chunk size B>0 and source; open-flag decision table equals the documented meaning on all 32 rows (decide); L2: guards and cursor updates of MemoryWriter (Seek/SeekForward/SeekBackward/WriteImplementation) and DynamicMemoryWriter (SeekForward/SeekBackward/Seek/WriteImplementation) are re-translated from the C++ on every run (Gen/Streams.lean) and proved equal to the models' on all 64-bit values (C14_gen_*)")
+          "EVERY chunk size B>0 and source; open-flag decision table equals the documented meaning on all 32 rows (decide); a writer opened with Append keeps the prior content as a prefix and ends as prior ++ bytes written for EVERY history of writes and seeks (C14_append_history, C14_append_preserves); L2: guards and cursor updates of MemoryWriter (Seek/SeekForward/SeekBackward/WriteImplementation) and DynamicMemoryWriter (SeekForward/SeekBackward/Seek/WriteImplementation) are re-translated from the C++ on every run (Gen/Streams.lean) and proved equal to the models' on all 64-bit values (C14_gen_*)")
 PARTIAL = ("what std::ofstream does with an open mode is OS/library behaviour: assumed (ofstreamKeeps) and checked on disk. The row "
            "'existing file, neither Truncate nor Append' carries no property clause (the flags say nothing about prior content).")
 TRUSTED = ["std::ofstream open-mode semantics (out truncates unless app)", "std::vector::resize zero-fills / truncates"]
@@ -71,6 +71,44 @@ def spec_dynw(ops):
     return ",".join(out)
 
 def gen_bytes(n, seed): return bytes(((i * 131 + seed * 7 + (i >> 8)) & 0xFF) for i in range(n))
+
+def fw_seq_oracle(fl, prior, ops):
+    """what the open flags demand of `fw.seq` (content on disk after close); None where they leave it open"""
+    E, N, T, A = fl & 1, fl & 2, fl & 4, fl & 8
+    ex = prior is not None
+    written = b"".join(bytes.fromhex(t[1:]) for t in ops if t[0] == 'w' and t[1:] != "-")
+    seeks = any(t[0] != 'w' for t in ops)
+    if not (E or N) or (T and A) or (ex and not E) or (not ex and not N):
+        want = "refused " + (show(prior) if ex else "absent")
+        return lambda out: None if out == want else f"open must be refused and leave the destination alone: want {want}"
+    if A:
+        want = show((prior or b"") + written)
+        return lambda out: None if out.split(" ")[-1] == want else f"Append: the file must be its prior content followed by the bytes written ({want}) whatever seeks the history contains"
+    if (not ex or T) and not seeks:
+        want = show(written)
+        return lambda out: None if out.split(" ")[-1] == want else f"new/truncated file must hold exactly the bytes written ({want})"
+    return None
+
+def fw_seq_cases(tier, rng):
+    priors = [None, b"", b"HEADERDATA"]
+    fixed = [[], ["w4142"], ["w4142", "s0", "w5859"], ["s0", "w5859"], ["b4", "w5859"], ["w41", "b3", "w5859", "E", "w5a"],
+             ["B", "w5859", "s3", "w51", "f2", "w52"], ["s12", "w5859"], ["w-", "s2", "w-", "w41"], ["b99", "w41"]]
+    for fl in range(16):
+        for prior in priors:
+            for ops in fixed:
+                yield Case(f"fw.seq {fl} {hexs(prior) if prior is not None else 'absent'} {','.join(ops) or '-'}",
+                           check=fw_seq_oracle(fl, prior, ops), tag="open-flags-history")
+    for _ in range(400 if tier == "thorough" else 120):
+        fl = rng.choice([9, 11, 11, 10, 3, 7, 1, 5, 2, 6])
+        prior = rng.choice([None, b"", bytes(rng.randrange(256) for _ in range(rng.randrange(1, 20)))])
+        ops = []
+        for _ in range(rng.randrange(1, 12)):
+            c = rng.choice("wwwsfbBE")
+            if c == 'w': ops.append("w" + hexs(bytes(rng.randrange(256) for _ in range(rng.randrange(0, 6)))))
+            elif c in "BE": ops.append(c)
+            else: ops.append(c + str(rng.randrange(0, 30)))
+        yield Case(f"fw.seq {fl} {hexs(prior) if prior is not None else 'absent'} {','.join(ops)}",
+                   check=fw_seq_oracle(fl, prior, ops), tag="open-flags-history-random")
 
 def cases(tier, rng):
     thorough = tier == "thorough"
@@ -142,3 +180,4 @@ def cases(tier, rng):
             elif A: exp = "ok " + hexs(b"HELLOXY")
             else: exp = None          # the flags say nothing about prior content
             yield Case(f"fw.open {fl} {ex} 5859", expect=exp, tag="open-flags")
+    yield from fw_seq_cases(tier, rng)
